@@ -3,6 +3,7 @@
    Models: Model/ChunkIndex.v (strip, reorder planner), Model/CloneOutput.v (executor, clone_model),
    vocabulary: Model/CloneSpec.v. [D k] is the content of the chunk with key k: keys stand for truncated
    hashes, i.e. the theorems assume hash injectivity on the chunks involved. *)
+From Bita Require Import Gen.Generated.
 From Bita Require Import Model.Base Model.ChunkIndex Model.CloneOutput Model.CloneSpec.
 From Bita Require Import Model.PlannerIter.
 From Bita Require Import Proofs.Planner Proofs.PlannerIterEq Proofs.CloneCorrect Proofs.CloneFinal.
@@ -84,6 +85,14 @@ Theorem C03_old_output_irrelevant_bytes :
         /\ takeN (lenN src) (o_file (cr_state r2)) = takeN (lenN src) (o_file (cr_state r1)).
 Proof. exact seeds_and_old_output_irrelevant_bytes. Qed.
 
+(* the phases of clone_archive in src/clone_cmd.rs (regenerated from the source on every run) come in the order the
+   byte-level model composes them: scan of the old output, re-ordering in place, seeds, archive, resize *)
+Definition C03_is_phase (s : clone_step) : bool :=
+  match s with ScanOutput | Reorder | SeedStdin | SeedFiles | FetchArchive | SetLen => true | _ => false end.
+Theorem C03_clone_phases_in_model_order :
+  filter C03_is_phase clone_step_order = [ScanOutput; Reorder; SeedStdin; SeedFiles; FetchArchive; SetLen].
+Proof. reflexivity. Qed.
+
 (* non-vacuity: a swap with overlap -- source = B A A (chunks A = [1;2], B = [3;4;5]), prior = A B *)
 Example C03_example :
   let D := fun k => if k =? 0 then [1;2] else [3;4;5] in
@@ -98,3 +107,4 @@ Print Assumptions C03_inplace_exact.
 Print Assumptions C03_explicit_stack_planner_is_recursive_planner.
 Print Assumptions C03_inplace_bytes_exact.
 Print Assumptions C03_old_output_irrelevant_bytes.
+Print Assumptions C03_clone_phases_in_model_order.
